@@ -882,7 +882,13 @@ func cmdSer(args []string) int {
 		small := &jsonx.CTree{Kind: 'L', Elems: []*jsonx.CTree{{Kind: 'i', I: 1}, {Kind: 'O', Keys: []string{"a"}, Elems: []*jsonx.CTree{{Kind: 'z'}}}}}
 		long := strings.Repeat("long line ", 7000)
 		longNested := &jsonx.CTree{Kind: 'L', Elems: []*jsonx.CTree{{Kind: 'O', Keys: []string{"text", long[:66000]}, Elems: []*jsonx.CTree{{Kind: 's', S: long}, {Kind: 'L', Elems: []*jsonx.CTree{{Kind: 's', S: long[:65600]}, {Kind: 'i', I: 1}}}}}, {Kind: 'i', I: 2}}}
-		seq = append(seq, big, small, small, bigO, small, big, chain(4, true), small, longNested, small)
+		// many shallow records with empty containers inside (per-container bookkeeping that is not undone adds up)
+		records := &jsonx.CTree{Kind: 'L'}
+		for i := 0; i < 12000; i++ {
+			records.Elems = append(records.Elems, &jsonx.CTree{Kind: 'O', Keys: []string{"id", "attrs", "tags", "name"},
+				Elems: []*jsonx.CTree{{Kind: 'i', I: i}, {Kind: 'O'}, {Kind: 'L'}, {Kind: 's', S: "n"}}})
+		}
+		seq = append(seq, big, small, small, bigO, small, big, chain(4, true), small, longNested, small, records, small)
 		for i, ct := range seq {
 			text, err := runSerCheck(*check, ct, i%3, nil, true)
 			atomic.AddInt64(&st.evals, 1)
